@@ -53,7 +53,7 @@ class FakeSock:
 
     def connect(self, address):
         self.net.log.append(("connect", self.i, address))
-        o = self.net.addrs[self.i]
+        o = self.net.addrs[self.i - self.net.base]        # position among the addresses of the CURRENT resolution
         if o == "a":
             return
         if o == "r":
@@ -100,7 +100,7 @@ class FakeSock:
 
 class Net:
     def __init__(self, addrs=("a",), proxy_reply=b"HTTP/1.1 200 Connection established\r\n\r\n",
-                 set_cookies=(), ip_base="192.0.2."):
+                 set_cookies=(), ip_base="192.0.2.", redirects=()):
         self.addrs = None if addrs is None else list(addrs)
         self.proxy_reply = bytes(proxy_reply)
         self.set_cookies = list(set_cookies)     # Set-Cookie header values of the next 101 response
@@ -108,10 +108,19 @@ class Net:
         self.socks = []
         self.ip_base = ip_base
         self.requests = []
+        self.base = 0            # sockets created before the latest getaddrinfo (each connection resolves afresh)
+        # the i-th upgrade request is answered `302 Location: redirects[i][0]` (with the Set-Cookie values redirects[i][1]);
+        # requests beyond the list get the 101
+        self.redirects = [(r, ()) if isinstance(r, str) else (r[0], tuple(r[1])) for r in redirects]
 
     # --- responder for upgrade requests
     def respond(self, req):
         self.requests.append(req)
+        k = len(self.requests) - 1
+        if k < len(self.redirects):
+            loc, cks = self.redirects[k]
+            head = [b"HTTP/1.1 302 Found", b"Location: " + loc.encode()] + [b"Set-Cookie: " + c.encode() for c in cks]
+            return b"\r\n".join(head) + b"\r\n\r\n"
         key = None
         for line in req.split(b"\r\n")[1:]:
             if line.lower().startswith(b"sec-websocket-key:"):
@@ -133,6 +142,7 @@ class Net:
 
         def getaddrinfo(host, port, family=0, type=0, proto=0, flags=0):
             net.log.append(("resolve", host, port))
+            net.base = len(net.socks)
             if net.addrs is None:
                 raise real_socket.gaierror(-2, "Name or service not known")
             return [(real_socket.AF_INET, real_socket.SOCK_STREAM, 6, "", (net.ip_base + str(i + 1), port))
